@@ -189,6 +189,30 @@ for comp in ("RaCl2@4.9", "Ra(OH[1])2@5.0", "BaRaH[1]2O2@4.5"):
         fail("C16:solute-vs-substituted:real", "%s = %r (D2O_match %r); the compound with 40%% of its labile hydrogen replaced by D at unchanged cell "
              "volume has %r" % (t5, a, m_, d_), call=t5)
 
+# ---------------------------------------------------------------- fasta.Molecule given by (natural) density instead of cell volume
+stats["molecule_by_density"] = 0
+for comp, nd in (("C3H4H[1]NO", 1.29), ("C3D4H[1]3NO2", 1.40), ("C6H7H[1]5O6", 1.54)):
+    stats["molecule_by_density"] += 1
+    M = attempt(lambda: fasta.Molecule("x", comp, density=nd))
+    ref_ = attempt(lambda: nsf.D2O_match(comp, natural_density=nd))
+    sl_ = attempt(lambda: nsf.D2O_sld(comp, volume_fraction=1.0, D2O_fraction=0.0, natural_density=nd))
+    t6 = "fasta.Molecule('x', %r, density=%r)" % (comp, nd)
+    if any(isinstance(x, BaseException) for x in (M, ref_, sl_)) or not close(M.D2Omatch, 100 * ref_[0], 100 * (1 + abs(ref_[0])), 1e-9) \
+            or not close(M.sld, sl_[0], abs(sl_[0]) + 1, 1e-9):
+        fail("C16:molecule-match", "%s: D2Omatch %r, sld %r; nsf.D2O_match / D2O_sld with natural_density=%r give %r %% and %r"
+             % (t6, getattr(M, "D2Omatch", M), getattr(M, "sld", None), nd, None if isinstance(ref_, BaseException) else 100 * ref_[0],
+                None if isinstance(sl_, BaseException) else sl_[0]), molecule=comp)
+# a prefixed sequence string used before (its formula given another density by the caller): the next use is unaffected
+try:
+    s_ = "aa:WHYRNQ"
+    before_ = nsf.D2O_match(s_)
+    g_ = formula(s_); g_.density = 3.3
+    after_ = nsf.D2O_match(s_)
+    if not close(before_[0], after_[0], 1 + abs(before_[0]), 1e-12) or not close(before_[1], after_[1], 1 + abs(before_[1]), 1e-12):
+        fail("C16:prefix-history", "D2O_match(%r) = %r; after g = formula(%r); g.density = 3.3 it is %r" % (s_, before_, s_, after_), call=s_)
+except Exception as e:  # noqa
+    fail("C16:prefix-history", "D2O_match on a prefixed sequence raised %s: %s" % (type(e).__name__, e), call="aa:WHYRNQ")
+
 # ---------------------------------------------------------------- the same through a private table
 # table=T reaches the parser: a compound given as a string is read with T's atoms, the labile hydrogen replaced is T's H[1].
 # With an unmodified private table the results are those of the public table.
